@@ -23,11 +23,13 @@ func zzNumNodes(quick, thorough int) int {
 
 // zzC03 runs one rolling-update sync over n nodes in arbitrary categories and checks
 // the availability budget of property C03.
-func zzC03(n int, percent, sharedVariants bool) { zzC03x(n, percent, sharedVariants, false) }
+func zzC03(n int, percent, sharedVariants bool) { zzC03x(n, percent, sharedVariants, "") }
 
-// zzC03x: unknownReadiness = every pod whose Ready condition would be False reports it as Unknown (a
-// kubelet that stopped reporting): neither value is "available".
-func zzC03x(n int, percent, sharedVariants, unknownReadiness bool) {
+// zzC03x: notReadyAs = how a pod whose Ready condition would be False presents itself instead:
+// "unknown" — Ready=Unknown (a kubelet that stopped reporting); "failed" — phase Failed (evicted, still
+// listed because the failed-pods back-off holds it): none of these is "available", all of them are
+// unavailable pods that are replaced first.
+func zzC03x(n int, percent, sharedVariants bool, notReadyAs string) {
 	cats := make([]int, n)
 	for i := range cats {
 		cats[i] = nondet.Int("cat"+strconv.Itoa(i), 0, zzNumCat-1)
@@ -62,14 +64,18 @@ func zzC03x(n int, percent, sharedVariants, unknownReadiness bool) {
 		cats[i] = int(nondetConc(cats[i]))
 	}
 	params, items := zzParamsV(ds, rs, cats, sharedVariants)
-	if unknownReadiness {
+	if notReadyAs != "" {
 		for _, pod := range params.PodByNodeName {
 			if pod == nil {
 				continue
 			}
 			for i := range pod.Status.Conditions {
 				if pod.Status.Conditions[i].Type == corev1.PodReady && pod.Status.Conditions[i].Status == corev1.ConditionFalse {
-					pod.Status.Conditions[i].Status = corev1.ConditionUnknown
+					if notReadyAs == "unknown" {
+						pod.Status.Conditions[i].Status = corev1.ConditionUnknown
+					} else if pod.DeletionTimestamp == nil {
+						pod.Status.Phase = corev1.PodFailed
+					}
 				}
 			}
 		}
@@ -163,7 +169,11 @@ func ZZ_C03_budget() { zzC03(zzNumNodes(3, 4), false, true) }
 // ZZ_C03_budgetPercent: percentages.
 // ZZ_C03_budgetUnknownReadiness: the same budget on two nodes where a not-ready pod reports Ready=Unknown
 // instead of False.
-func ZZ_C03_budgetUnknownReadiness() { zzC03x(2, false, true, true) }
+func ZZ_C03_budgetUnknownReadiness() { zzC03x(2, false, true, "unknown") }
+
+// ZZ_C03_budgetFailedPhase: the same budget on two nodes where a not-ready pod is an evicted one
+// (phase Failed) that is still mapped to its node.
+func ZZ_C03_budgetFailedPhase() { zzC03x(2, false, true, "failed") }
 
 func ZZ_C03_budgetPercent() { zzC03(zzNumNodes(3, 4), true, true) }
 
